@@ -56,6 +56,7 @@ CLASSES = (['tr-m-minus1:' + a for a in ('surf-tr', 'trcl-num', 'fill-num',
            + [f'facet-beyond:{k}' for k in MACRO_KINDS
               if k not in ('sph', 'ell')]
            + ['facet-on-plain', 'fill-array-short', 'fill-array-long',
+              'fill-array-long-by-repeat', 'fill-array-short-by-repeat',
               'imp-unequal', 'imp-short', 'lattice-arg-malformed']
            + [f'material-mixed-sign:{b}-{w}' for b in ('pos', 'neg')
               for w in ('first', 'mid', 'last')])
@@ -279,6 +280,32 @@ def build_pair(case):
         bad = copy.deepcopy(deck)
         bad.cells[0].geom = M.AND(M.S(-1, facet=2), bad.cells[0].geom[2])
         return deck, bad, f'facet .2 of a plain {kind}'
+    if head in ('fill-array-long-by-repeat', 'fill-array-short-by-repeat'):
+        for _ in range(20):
+            deck = (gen_lat.build_rect if rng.random() < 0.6 else
+                    gen_lat.build_hex)(rng, rng.choice(['array-own',
+                                                        'shorthand']))
+            lat = deck.cell(gen_lat.LAT_CELL)
+            if lat.fill.array is not None and len(lat.fill.array) >= 4:
+                break
+        else:
+            return None
+        bad = copy.deepcopy(deck)
+        blat = bad.cell(gen_lat.LAT_CELL)
+        arr = [str(v) for v in blat.fill.array]
+        size = len(arr)
+        keep = rng.randint(1, size - 2)
+        if head == 'fill-array-long-by-repeat':
+            reps = size - keep + rng.randint(1, 4)      # crosses the end
+        else:
+            reps = size - keep - rng.randint(1, 2)
+            if reps < 1:
+                return None
+        blat.fill.render_array = arr[:keep] + [f'{reps}r']
+        blat.fill.array = blat.fill.array[:keep] + \
+            [blat.fill.array[keep - 1]] * reps
+        return deck, bad, (f'FILL array {" ".join(blat.fill.render_array)} '
+                           f'expands to {keep + reps} entries instead of {size}')
     if head in ('fill-array-short', 'fill-array-long'):
         deck = (gen_lat.build_rect if rng.random() < 0.6 else
                 gen_lat.build_hex)(rng, 'array-own' if rng.random() < 0.5
